@@ -357,6 +357,7 @@ EXPORT char *_strtok_s_chk(char *restrict dest, rsize_t *restrict dmaxp,
         dlen--;
     }
 
+    *ptr = dest; /* the terminating null: nothing is left for the next call */
     *dmaxp = dlen;
     return (ptoken);
 }
